@@ -6,8 +6,8 @@ Lemma split_aux_cur c : forall s cur,
   split_aux c cur s = match split_on c s with h :: t => (rev cur ++ h) :: t | [] => [] end.
 Proof.
   induction s as [|x t IH]; intros cur.
-  - simpl. rewrite app_nil_r. reflexivity.
-  - unfold split_on. cbn [split_aux]. destruct (x =? c) eqn:E.
+  - simpl. rewrite ?frev_rev. rewrite app_nil_r. reflexivity.
+  - unfold split_on. cbn [split_aux]. rewrite ?frev_rev. destruct (x =? c) eqn:E.
     + simpl. rewrite app_nil_r. reflexivity.
     + rewrite (IH (x :: cur)), (IH [x]).
       pose proof (split_aux_nonempty c [] t) as Hne. fold (split_on c t) in Hne.
@@ -81,11 +81,11 @@ Qed.
 Lemma strip_last_empty_app init X : X <> [] ->
   strip_last_empty (init ++ X) = init ++ strip_last_empty X.
 Proof.
-  intros HX. unfold strip_last_empty. rewrite rev_app_distr.
+  intros HX. unfold strip_last_empty. rewrite !frev_rev. rewrite rev_app_distr.
   destruct (rev X) as [|y r] eqn:Er.
   - apply (f_equal (@rev _)) in Er. rewrite rev_involutive in Er. contradiction.
   - cbn [app]. destruct y; [|reflexivity].
-    rewrite rev_app_distr, rev_involutive. reflexivity.
+    rewrite !frev_rev. rewrite rev_app_distr, rev_involutive. reflexivity.
 Qed.
 
 (* ---- fragmentation independence ---- *)
@@ -154,9 +154,9 @@ Proof. intros H. destruct rs as [|[? ?] ?]; cbn [feed]; apply Z.leb_le in H; rew
 (* what a token is: a line of the stream without its terminator and one trailing CR *)
 Lemma drop_cr_spec l : drop_cr l = l \/ l = drop_cr l ++ [cr].
 Proof.
-  unfold drop_cr. destruct (rev l) as [|x r] eqn:E; [left; reflexivity|].
+  unfold drop_cr. rewrite frev_rev. destruct (rev l) as [|x r] eqn:E; [left; reflexivity|].
   destruct (Z.eq_dec x 13) as [->|Hx].
-  - right. apply (f_equal (@rev _)) in E. rewrite rev_involutive in E. simpl in E. exact E.
+  - right. rewrite frev_rev. apply (f_equal (@rev _)) in E. rewrite rev_involutive in E. simpl in E. exact E.
   - left. destruct x as [|p|p]; try reflexivity.
     repeat (destruct p as [p|p|]; try reflexivity). contradiction.
 Qed.
